@@ -269,14 +269,26 @@ fn decode_session(bytes: &[u8]) -> (Vec<Value>, Vec<i64>, String) {
     let n = 20 + s.below(40);
     for _ in 0..n {
         if s.chance(1, 4) {
-            let e = text::gen_edit(&mut s, &text, &text.clone());
-            if let Some(c) = to_change(&text, &e) {
-                let (a, z) = c.range.unwrap();
-                msgs.push(session::notification(
-                    "textDocument/didChange",
-                    json!({ "textDocument": { "uri": uri, "version": 2 }, "contentChanges": [{ "range": { "start": { "line": a.line, "character": a.character }, "end": { "line": z.line, "character": z.character } }, "text": c.text }] }),
-                ));
-                text.replace_range(e.range.clone(), &e.text);
+            // one notification with 1-3 content changes, each relative to its predecessor; one
+            // change in eight has no range (replaces the whole document)
+            let k = if s.chance(1, 3) { 2 + s.below(2) } else { 1 };
+            let mut cc = Vec::new();
+            for _ in 0..k {
+                if s.chance(1, 8) {
+                    let t = if s.chance(1, 2) { gen_doc(&mut s).1 } else { super::c08::gen_text(&mut s, 8) };
+                    cc.push(json!({ "text": t }));
+                    text = t;
+                    continue;
+                }
+                let e = text::gen_edit(&mut s, &text, &text.clone());
+                if let Some(c) = to_change(&text, &e) {
+                    let (a, z) = c.range.unwrap();
+                    cc.push(json!({ "range": { "start": { "line": a.line, "character": a.character }, "end": { "line": z.line, "character": z.character } }, "text": c.text }));
+                    text.replace_range(e.range.clone(), &e.text);
+                }
+            }
+            if !cc.is_empty() {
+                msgs.push(session::notification("textDocument/didChange", json!({ "textDocument": { "uri": uri, "version": 2 }, "contentChanges": cc })));
             }
         } else {
             id += 1;
@@ -308,7 +320,8 @@ impl Check for Binary {
         let mut r = CaseResult::new(fnv(bytes));
         r.label(format!("stratum:{}", stratum));
         r.evals = ids.len() as u64;
-        let chunks = session::chunks_of(&msgs);
+        // two frames in five carry a Content-Type header before or after Content-Length (see c19::framed)
+        let chunks: Vec<session::Chunk> = msgs.iter().map(|m| session::Chunk { bytes: super::c19::framed(m), sleep_before_ms: 0 }).collect();
         let opts = RunOpts { close_stdin: true, timeout_ms: WATCHDOG_MS, read_delay_ms: 0 };
         let mut o = session::run(&chunks, &opts);
         let mut tries = 1;
@@ -375,7 +388,7 @@ pub fn run(ctx: &Ctx) -> i32 {
     finish(
         ctx,
         parts,
-        "documents of all strata (valid programs incl. a deep-nesting stratum up to depth 22 and explicitly nested parentheses / blocks / array accesses / ifs / negations of depth 20-60, damaged programs, token soup with unterminated literals, arbitrary Unicode, CRLF, unterminated comments / ticks, empty) with optional edit histories; in process: AnalyzedSource::new / update / errors and the document broker must not panic, then all 13 handlers at 3-6 positions (token start / inside / last character / just past / behind, anywhere, origin, column past the end of a line, line past the end of the text) must neither panic nor return an error; against the real binary: sessions of 20-60 messages (didChange and the 13 requests at such positions): one response with the request's id and a result per request, in order, strict frames, alive until exit, status 0; non-trivial = the document has diagnostics / was edited or a position lies outside the text; evaluations = handler calls resp. requests",
+        "documents of all strata (valid programs incl. a deep-nesting stratum up to depth 22 and explicitly nested parentheses / blocks / array accesses / ifs / negations of depth 20-60, damaged programs, token soup with unterminated literals, arbitrary Unicode, CRLF, unterminated comments / ticks, empty) with optional edit histories; in process: AnalyzedSource::new / update / errors and the document broker must not panic, then all 13 handlers at 3-6 positions (token start / inside / last character / just past / behind, anywhere, origin, column past the end of a line, line past the end of the text) must neither panic nor return an error; against the real binary: sessions of 20-60 messages (didChange notifications with 1-3 content changes, one change in eight range-less, and the 13 requests at such positions; two frames in five with a Content-Type header before or after Content-Length): one response with the request's id and a result per request, in order, strict frames, alive until exit, status 0; non-trivial = the document has diagnostics / was edited or a position lies outside the text; evaluations = handler calls resp. requests",
         &[
             "nesting stays below the bound at which the 2 MB worker stack overflows (about 100-200 levels in release): outside the property's quantifier",
             "request params are well-formed and ids are integers",
